@@ -74,6 +74,9 @@ const (
 	// value positions only (never labels): a number the caller holds as big.Int / *big.Int
 	SpBigInt    uint8 = 20
 	SpBigIntPtr uint8 = 21
+	// value positions only: a whole number of seconds the caller holds as time.Time (the encoder writes
+	// the epoch seconds as a plain integer)
+	SpTime uint8 = 22
 )
 
 // Val is the harness' abstract CBOR value. Maps keep an explicit entry order.
